@@ -229,6 +229,10 @@ def loading_cfgs(tier):
                         fails.append(('molar_mass', 'liquid_density', 'gas_density', 'liquid_molar_density', 'gas_molar_density'))
                     for fail in fails:
                         out.append(('l', lb, lu, mb, mu, bt, ut, fail))
+                    # the same conversion on an isotherm labelled in degrees Celsius (thermodynamic queries must still be
+                    # made in kelvin): basis changes with the target's first unit
+                    if b in S.LOADING_BASES and b != lb and ut in (None, (list(S.LOADING_BASES[b] or []) or [None])[0]) and (mb, mu) == ms[0]:
+                        out.append(('l', lb, lu, mb, mu, bt, ut, (), '°C'))
     return out
 
 
@@ -241,8 +245,9 @@ def _l_needs(lb, b, mb):
 
 def loading_block(block):
     obs = []
-    for (_k, lb, lu, mb, mu, bt, ut, fail) in block:
-        lab = _lab(loading_basis=lb, loading_unit=lu, material_basis=mb, material_unit=mu)
+    for item in block:
+        (_k, lb, lu, mb, mu, bt, ut, fail), tu = item[:8], (item[8] if len(item) > 8 else 'K')
+        lab = _lab(loading_basis=lb, loading_unit=lu, material_basis=mb, material_unit=mu, temperature_unit=tu)
         if not I.valid_labels(*[lab[k] for k in I.LABELS]):
             # start state must satisfy RI; for fraction isotherms the constructor accepts any material unit
             continue
@@ -273,13 +278,16 @@ def material_cfgs(tier):
                         fails.append(('molar_mass', 'liquid_density', 'gas_density', 'liquid_molar_density', 'gas_molar_density'))
                     for fail in fails:
                         out.append(('m', mb, mu, lb, lu, bt, ut, fail))
+                    if _frac(lb) and b in S.MATERIAL_BASES and b != mb and ut in (None, (list(S.MATERIAL_BASES[b] or []) or [None])[0]):
+                        out.append(('m', mb, mu, lb, lu, bt, ut, (), '°C'))
     return out
 
 
 def material_block(block):
     obs = []
-    for (_k, mb, mu, lb, lu, bt, ut, fail) in block:
-        lab = _lab(loading_basis=lb, loading_unit=lu, material_basis=mb, material_unit=mu)
+    for item in block:
+        (_k, mb, mu, lb, lu, bt, ut, fail), tu = item[:8], (item[8] if len(item) > 8 else 'K')
+        lab = _lab(loading_basis=lb, loading_unit=lu, material_basis=mb, material_unit=mu, temperature_unit=tu)
         b, u = target_material(lab, bt, ut)
         # validity of the target = "the constructor would accept it" (for fraction/percent loadings the
         # material unit is a don't-care, see constructor_block)
